@@ -93,9 +93,12 @@ class BlockingExecutor(Executor):
         info: ResolveInfo,
         resolved_value: Any,
     ) -> List[Any]:
+        # Read the whole iterable first: if producing the entries fails, this
+        # happens before any of them has started to resolve its own fields.
+        entries = list(resolved_value)
         return [
             self.complete_value(inner_type, nodes, path + [index], info, entry)
-            for index, entry in enumerate(resolved_value)
+            for index, entry in enumerate(entries)
         ]
 
     def complete_non_nullable_value(
